@@ -220,7 +220,9 @@ def run_unit(unit, rlimit=30, seed=0, keep=True, extra_args=()):
             res.status = 'error'
             res.errors.append('failure outside extracted functions (lemma library / unit text): %s\n%s' % (msg, rendered[:1500]))
             continue
-        if fn is not None and getattr(fn, 'skipped_hints', None) and kind in ('assert', 'invariant') :
+        if fn is not None and getattr(fn, 'skipped_hints', None):
+            # a proof step of this function lost its anchor (the anchored statement was edited away): whatever fails in the
+            # function afterwards may be the missing step, not the code -- undecided (exit 2), never an alarm
             res.undecided.append('%s: %s after a proof hint was dropped (anchor absent): %s' % (fn.key, kind, msg))
             continue
         safety = kind in ('overflow', 'termination', 'panic') or (kind == 'precondition')
